@@ -1,6 +1,6 @@
 (* Props/C04.v — the run loop stops exactly on its limits; aggregates are the fold of the runs. *)
 From Coq Require Import Arith List Bool Lia ZArith QArith.
-From QV Require Import App.RunLoop.
+From QV Require Import App.RunLoop App.RunLoopEnv.
 Import ListNotations.
 Open Scope nat_scope.
 
@@ -56,6 +56,32 @@ Proof. exact run_loop_scale. Qed.
 Theorem c04_scale_inj : forall c x y, c <> 0%Z -> scale_ov c x = scale_ov c y -> x = y.
 Proof. exact scale_ov_inj. Qed.
 
+(* decoder-owned output buffers: a decode call writes this run's vector into a buffer of the decoder's choosing
+   (possibly the one it returned before) and returns it; hl / hc = whatever the buffers held initially. The loop,
+   which takes the contents of the returned array when it is returned, is the loop over the values written — for
+   every address (reuse) pattern. The harness realises such decoders and asks the engine with the values. *)
+Theorem c04_snapshot : forall fuel mr mf d hl hc,
+  run_loop fuel mr mf (outs_seen d hl hc) = run_loop fuel mr mf (outs_written d).
+Proof. exact snapshot_loop. Qed.
+(* a loop that keeps the array object of run 1 as its running total agrees with the fold unless run 2 writes the
+   buffer returned by run 1 (so decoders returning fresh arrays never show it; alias_differs: one buffer does) *)
+Theorem c04_alias_needs_reuse : forall s h0 n, second_write_elsewhere s \/ n <= 1 ->
+  alias_prefix s h0 n = arr_prefix (written s) n.
+Proof. exact alias_agrees_when_fresh. Qed.
+
+(* identification fields: echoed as passed for an arbitrary type P of probabilities (no arithmetic on them), with the
+   documented measurement-probability default; every run is made with the echoed values *)
+Theorem c04_echo : forall (P L : Type) (zero : P) m code nkd T em dec p q,
+  let r := run_ident P L zero m code nkd T em dec p q in
+  i_code P L r = code /\ i_nkd P L r = nkd /\ i_model P L r = em /\ i_decoder P L r = dec /\ i_p P L r = p /\
+  i_steps P L r = match m with Ideal => 1 | Ftp => T end /\
+  (forall q', m = Ftp -> q = Some q' -> i_q P L r = q') /\
+  (m = Ftp -> q = None -> T <> 1 -> i_q P L r = p) /\
+  (m = Ftp -> q = None -> T = 1 -> i_q P L r = zero) /\
+  (m = Ideal -> i_q P L r = zero) /\
+  (forall i, run_args P zero m T p q i = (i_steps P L r, i_p P L r, i_q P L r)).
+Proof. exact echo. Qed.
+
 (* statistics are definitional in the model: population variance, rates *)
 Theorem c04_statistics : forall ws a n T,
   pvar ws = Qdiv (qsum (map (fun w => Qmult (Qminus (inject_Z w) (mean ws)) (Qminus (inject_Z w) (mean ws))) ws)) (qn (length ws)) /\
@@ -69,6 +95,11 @@ Definition ex_outs (i : nat) : run_data :=
 Example c04_ex : run_loop 10 (Some 5) (Some 2) ex_outs = Done (mkAcc 3 2 (Some [3%Z; 0%Z]) None [0%Z; 1%Z; 2%Z])
   /\ limits_ok (Some 5) (Some 2).
 Proof. split; [vm_compute; reflexivity|split; intros m E; injection E as <-; lia]. Qed.
+(* non-vacuity of the buffer model: a decoder with one output buffer returning [1], [2], [3]: the fold is [6]; a loop
+   keeping run 1's array object as its total would give [7] *)
+Example c04_ex_alias : arr_prefix (written one_buffer) 3 = Some (Some [6%Z]) /\
+  alias_prefix one_buffer (fun _ => []) 3 = Some (Some [7%Z]) /\ ~ second_write_elsewhere one_buffer.
+Proof. exact alias_differs. Qed.
 Example c04_ex_pvar : Qeq (pvar [1%Z; 0%Z; 2%Z; 1%Z]) (1 # 2).
 Proof. vm_compute. reflexivity. Qed.
 
@@ -76,3 +107,4 @@ Print Assumptions c04_stop_exact. Print Assumptions c04_default_once. Print Assu
 Print Assumptions c04_aggregate. Print Assumptions c04_sums. Print Assumptions c04_sum_entries.
 Print Assumptions c04_mismatch_iff. Print Assumptions c04_mismatch_raises. Print Assumptions c04_statistics.
 Print Assumptions c04_scale. Print Assumptions c04_scale_inj.
+Print Assumptions c04_snapshot. Print Assumptions c04_alias_needs_reuse. Print Assumptions c04_echo.
